@@ -126,7 +126,7 @@ PROPS = {
     "C12": {"kinds": ["LEAK", "NODE_BOUND", "CRASH-UAF"], "stages": lock_stages("C12", 8000, 60000), "assumptions": LOCK_ASSUME},
     "C05": {"kinds": ["IDRANGE", "IDSTABLE", "IDUNIQUE"], "stages": thread_stages("C05", [1, 2, 3, 4, 8], 500, [1, 2, 3, 4, 8], 5000),
             "assumptions": THREAD_ASSUME},
-    "C14": {"kinds": ["STUCK", "FINAL_BUSY"], "stages": thread_stages("C14", [1, 2, 3, 4, 8], 500, [1, 2, 3, 4, 8], 5000), "assumptions": THREAD_ASSUME},
+    "C14": {"kinds": ["STUCK", "FINAL_BUSY", "ID-STARVE"], "stages": thread_stages("C14", [1, 2, 3, 4, 8], 500, [1, 2, 3, 4, 8], 5000), "assumptions": THREAD_ASSUME},
     "C15": {"kinds": ["HB-REUSE", "HB-LIVE", "HB-EXIT"], "stages": thread_stages("C15", [2, 3, 4], 800, [1, 2, 3, 4, 8], 5000), "assumptions": THREAD_ASSUME},
     "C04": {"kinds": ["PIN-LIST", "PIN-MIN"], "stages": thread_stages("C04", [2, 3, 4], 700, [2, 3, 4, 8], 4000), "assumptions": THREAD_ASSUME},
     "C16": {"kinds": ["EPOCH-STEP", "CUR-DECREASED", "MIN-GT-CUR", "QUIESCENT-LIST", "QUIESCENT-MIN"],
